@@ -300,12 +300,19 @@ def judge_layout(t, scratch, lid, devs):
 
 
 def shard_work(shard, nshards, payload):
+    import time
+    t_start = time.time()
     t = vc.Tally()
     with vc.scratch_dir(f"c18-{shard}") as scratch:
         for k, devs in enumerate(layouts(payload["tier"])):
             if k % nshards != shard:
                 continue
             judge_layout(t, scratch, k, devs)
+            # a tree that is broken badly (every run wrong, or every run slow) is decided after a handful of
+            # layouts: stop this shard once it holds plenty of violations and say so in the evidence
+            if sum(t.viol_counts.values()) >= 60 or (time.time() - t_start > 600 and t.viol_counts):
+                t.inc("shards_stopped_early")
+                break
             if k % 97 == 0:
                 t.sample({"deviations": [list(d) for d in devs]})
     return t
@@ -321,7 +328,8 @@ def main(tier, t0):
         "rule": "distinct project layouts = baseline + every set of <= 2 deviations (root types incl. mutual/self "
                 "inheritance and unknown names; import lists incl. trailing slash, ./, .., missing directory, "
                 "cycles; instantiation lists); each layout: 3 single-source runs + all 12 multi-source orders",
-        "exhaustive": True,
+        "exhaustive": not c.get("shards_stopped_early", 0),
+        "shards_stopped_early_with_violations": c.get("shards_stopped_early", 0),
         "bound_completed": "2 deviations" + (" + 3 on a reduced menu" if tier == "thorough" else ""),
         "layouts": c.get("layouts", 0), "arrangements": c.get("arrangements", 0),
         "verdicts_judged": c.get("verdicts_judged", 0),
